@@ -211,8 +211,21 @@ def too_deep(rows, name):
     """the name the library would give is already taken TWICE over (name and name_v2 both exist): the documented
     rule covers one duplicate; deeper ones are outside the alphabet (such an operation is not enabled)"""
     names = [r[0] for r in rows]
-    cand = name if name is not None else "_const_%d" % len(rows)
+    if name is None:
+        # an UNNAMED constraint: the caller never chose a name, the positional one the library invents may collide
+        # after removals - also twice (two rows then carry the same invented name; rows, limits and names must still
+        # line up position by position)
+        return False
+    cand = name
     return cand in names and (cand + "_v2") in names
+
+
+def model_remove(rows, name):
+    """the first constraint carrying that name (names invented for unnamed constraints may occur twice)"""
+    for k, r in enumerate(rows):
+        if r[0] == name:
+            return rows[:k] + rows[k + 1 :]
+    return rows
 
 
 def model_add(rows, name, coefs, limit):
@@ -274,7 +287,7 @@ def step(st: State, op, viol):
                             viol.append(("remove:unknown-changed-state", "refused removal changed the table", None, None))
                         return s
                 net.remove_constraint(n)
-                s.rows = [r for r in s.rows if r[0] != n]
+                s.rows = model_remove(s.rows, n)
                 tag = "rem"
             elif kind == "upd":
                 n, i, new = op[1], op[2], op[3]
@@ -302,10 +315,10 @@ def step(st: State, op, viol):
                         if observe(net) != before:
                             viol.append(("update:unknown-changed-state", "refused update changed the table", None, None))
                         return s
-                if too_deep([r for r in s.rows if r[0] != n], new if new is not None else n):
+                if too_deep(model_remove(s.rows, n), new if new is not None else n):
                     return None
                 net.update_constraint(n, cur, limit, new)
-                s.rows = [r for r in s.rows if r[0] != n]
+                s.rows = model_remove(s.rows, n)
                 model_add(s.rows, new if new is not None else n, coefs, limit)
                 tag = "upd:" + shape(e)
             elif kind == "json":
@@ -415,13 +428,21 @@ def check_state(s: State, viol, op):
     T = sched.shape[1]
     tsets = [None, [0], [2], [0, 2], [1, 2], [0, 1, 2], [0, 0, 2], [1, 1]]
     subsets = [None]
-    for k in range(1, len(names) + 1):
-        for perm in itertools.permutations(names, k):
-            subsets.append(list(perm))
+    if len(names) <= 3:
+        for k in range(1, len(names) + 1):
+            for perm in itertools.permutations(names, k):
+                subsets.append(list(perm))
+    else:
+        # larger tables: every single name, every ordered pair, and three orders of the full set
+        for k in (1, 2):
+            for perm in itertools.permutations(names, k):
+                subsets.append(list(perm))
+        subsets += [list(names), list(reversed(names)), list(names[1:]) + [names[0]], list(names[2:]) + [names[0]]]
     subsets.append([names[0], "unknown-name"])
     for sub in subsets:
         rows_i = list(range(len(names))) if sub is None else [i for i, n in enumerate(names) if n in sub]
-        for ts in tsets:
+        # all time-index subsets for the full table and for single constraints; two of them for larger ordered subsets
+        for ts in (tsets if (sub is None or len(sub) == 1) else (None, [0, 2], [1, 1])):
             cols = list(range(T)) if ts is None else ts
             try:
                 got = np.asarray(net.constraint_current(sched, constraints=sub, time_indices=ts))
@@ -446,14 +467,27 @@ def check_state(s: State, viol, op):
                             )
                         )
                         return
-    # linear variant on the full set: sum |a_i| x_i
-    lin = np.asarray(net.constraint_current(sched, linear=True))
-    for i in range(len(names)):
-        for t in range(T):
-            w = sum(abs(s.rows[i][1].get(x, 0.0)) * sched[j, t] for j, x in enumerate(s.stations))
-            if not close(float(abs(lin[i, t])), w):
-                viol.append(("constraint_current:linear", "linear aggregate of row %r period %d is %r, expected %r" % (names[i], t, lin[i, t], w), str(lin[i, t]), w))
+    # linear variant: sum |a_i| x_i - on the full set, and for requested subsets of constraints / periods
+    lin_subsets = [None] + [subsets[k] for k in (1, len(subsets) // 2, len(subsets) - 2) if 0 < k < len(subsets) - 1]
+    for sub in lin_subsets:
+        rows_i = list(range(len(names))) if sub is None else [i for i, n in enumerate(names) if n in sub]
+        for ts in (None, [2], [0, 2], [1, 1]):
+            cols = list(range(T)) if ts is None else ts
+            try:
+                lin = np.asarray(net.constraint_current(sched, constraints=sub, time_indices=ts, linear=True))
+            except Exception as exc:
+                guard(exc)
+                viol.append(("constraint_current:linear:exception", "constraint_current(linear=True, constraints=%s, time_indices=%s) raised %r" % (sub, ts, exc), repr(exc), None))
                 return
+            if lin.shape != (len(rows_i), len(cols)):
+                viol.append(("constraint_current:linear:shape", "constraint_current(linear=True, constraints=%s, time_indices=%s) has shape %s" % (sub, ts, lin.shape), list(lin.shape), [len(rows_i), len(cols)]))
+                return
+            for a, i in enumerate(rows_i):
+                for b, t in enumerate(cols):
+                    w = sum(abs(s.rows[i][1].get(x, 0.0)) * sched[j, t] for j, x in enumerate(s.stations))
+                    if not close(float(abs(lin[a, b])), w):
+                        viol.append(("constraint_current:linear", "linear aggregate (constraints=%s, time_indices=%s) of row %r period %d is %r, expected %r" % (sub, ts, names[i], t, lin[a, b], w), str(lin[a, b]), w))
+                        return
 
 
 def nontrivial(s: State):
@@ -528,7 +562,13 @@ def space(tier, seed):
         # start from non-initial states too: tables that already hold unnamed / named constraints
         if len(order) == 3:
             # (named ones use a name outside the alphabet, so the search stays within ONE duplicate of a name)
-            for pre in ([["add", 0, None], ["add", 6, None], ["add", 3, None]], [["add", 14, "x1"], ["add", 6, None]], [["add", 4, None], ["add", 0, "x1"], ["add", 12, None]]):
+            for pre in (
+                [["add", 0, None], ["add", 6, None], ["add", 3, None]],
+                [["add", 14, "x1"], ["add", 6, None]],
+                [["add", 4, None], ["add", 0, "x1"], ["add", 12, None]],
+                # unnamed constraints interleaved with a removal: the invented names are _const_1, _const_2, _const_2_v2
+                [["add", 0, None], ["add", 6, None], ["add", 3, None], ["rem", "_const_0"], ["add", 12, None]],
+            ):
                 items.append({"order": order, "root": pre, "depth": 2, "full": False})
             # ... and tables that went through a JSON round trip before the edits continue
             for pre in ([["add", 0, None], ["add", 6, None], ["json"]], [["add", 14, "x1"], ["rem", "x1"], ["json"]], [["json"], ["add", 4, None]]):
